@@ -101,6 +101,11 @@ def do_request(ctx, client, kind, dryrun, skip_profile):
         i = ctx.choice("request_kind", list(range(len(rqs))))
         j = ctx.choice("second_request_kind", [None] + list(range(len(rqs))))
         chosen = [rqs[i]] + ([rqs[j]] if j is not None else [])
+        if j is None and i in (0, 3) and ctx.bool("long_request_list"):
+            # a large household: 24 more accounts with date ranges (the body grows to several kilobytes)
+            d0, d1 = datetime.datetime(2020, 1, 1, tzinfo=UTC), datetime.datetime(2020, 12, 31, tzinfo=UTC)
+            chosen = chosen + [InvStmtRq(acctid="I%03d" % k, dtstart=d0, dtend=d1, dtasof=d1) for k in range(12)] + \
+                [StmtRq(acctid="B%03d" % k, accttype="SAVINGS", dtstart=d0, dtend=d1) for k in range(12)]
         return client.request_statements("s3cret", *chosen, dryrun=dryrun, skip_profile=skip_profile)
     if kind == "accounts":
         return client.request_accounts("s3cret", datetime.datetime(2020, 1, 1, tzinfo=UTC), dryrun=dryrun, skip_profile=skip_profile)
